@@ -229,7 +229,13 @@ func (m *Manager) onParserFinish(header *parser.PacketHeader, eventName string, 
 	if !ok {
 		return
 	}
-	go socket.onPacket(header, eventName, decode)
+	if header.Type == parser.PacketTypeAck || header.Type == parser.PacketTypeBinaryAck {
+		go socket.onPacket(header, eventName, decode)
+		return
+	}
+	// Events are handled one at a time, in the order they were received. So are the CONNECT
+	// packet that precedes them and the DISCONNECT packet that follows them.
+	socket.packetRunner.add(func() { socket.onPacket(header, eventName, decode) })
 }
 
 func (m *Manager) packet(packets ...*eioparser.Packet) {
